@@ -202,7 +202,34 @@ func (ex *Exec) callStatic(c *ssa.CallCommon, fv FuncV, args []Value, pos token.
 	if ex.safetyOnly && inModule && len(f.Blocks) > 0 && ex.fr.depth < 3 {
 		return ex.inlineCall(c, fv, args, pos, fc)
 	}
+	if ex.abstractUnknown() {
+		return ex.abstractCall(key, args, sig)
+	}
 	panic(unsupported("call to " + key + " which has neither contract, stub nor inline marking"))
+}
+
+// abstractUnknown: `pragma unknowncalls havoc` on the function under contract: a call without contract, stub
+// or inline marking is over-approximated - it may change every heap location, every ghost field and every
+// local whose address it receives, may allocate, and returns arbitrary values of its result types. What is
+// proved about the caller then holds whatever the callee does, provided it returns (its own panics,
+// non-termination and preconditions are NOT checked; the evidence lists every call abstracted this way).
+func (ex *Exec) abstractUnknown() bool {
+	return ex.top != nil && ex.top.contract != nil && ex.top.contract.Pragmas["unknowncalls"] == "havoc"
+}
+
+func (ex *Exec) abstractCall(key string, args []Value, sig *types.Signature) Value {
+	ex.abstracted[key] = true
+	items := []modItem{{keyPrefix: "", level: 0}}
+	for _, a := range args {
+		if p, ok := a.(PtrV); ok && p.Kind == pLocal {
+			items = append(items, ex.locOfPtr(p, ex.st)...)
+		}
+	}
+	ex.havocItems(items, ex.st.clone())
+	na := ex.vc.Fresh("alloc", SInt)
+	ex.vc.Assume(ex.st.pc, Ge(na, ex.st.alloc), "")
+	ex.st.alloc = na
+	return ex.freshResults(sig)
 }
 
 func paramNames(f *ssa.Function) ([]string, []types.Type) {
@@ -279,6 +306,9 @@ func (ex *Exec) callInvoke(c *ssa.CallCommon, recv Value, args []Value, pos toke
 	}
 	st, ok := ex.specs.Stubs[key]
 	if !ok {
+		if ex.abstractUnknown() {
+			return ex.abstractCall(key, append([]Value{recv}, args...), c.Signature())
+		}
 		panic(unsupported("interface call " + key + " has no type contract"))
 	}
 	ex.stubsUsed[key] = true
@@ -306,6 +336,9 @@ func (ex *Exec) callDynamic(c *ssa.CallCommon, fv FuncV, args []Value, pos token
 	}
 	st, ok := ex.specs.Stubs[key]
 	if !ok {
+		if ex.abstractUnknown() {
+			return ex.abstractCall("func value of type "+key, args, c.Signature())
+		}
 		panic(unsupported("call through func value of type " + key + " has no type contract"))
 	}
 	ex.stubsUsed[key] = true
@@ -759,7 +792,11 @@ func (ex *Exec) yield() {
 		ex.st.heap[key] = ex.vc.Fresh("Hy."+key, srt)
 		ex.noteHeapWrite(key)
 	}
+	// the rely speaks about the function under contract, also while an inlined callee is running
+	savedFr := ex.fr
+	ex.fr = ex.top
 	env := ex.topEnv()
+	ex.fr = savedFr
 	env.old = pre
 	for _, r := range fc.Rely {
 		ex.vc.Assume(ex.st.pc, ex.evalBool(r.E, ex.st, env), "rely")
